@@ -4,7 +4,8 @@
 EXTENDS H2Flow, TLC, Json, IOUtils
 
 Traces == JsonDeserialize(IOEnv.TRACE_FILE)
-VARIABLES tid, l
+VARIABLES tid, l,
+          paused     \* [stream -> BOOLEAN]: the application's push producer was told pauseProducing (observable callback)
 ASSUME \A t \in 1..Len(Traces) : TLCSet(t, 1)
 
 T == Traces[tid]
@@ -13,8 +14,15 @@ E == T.ev[l]
 TInit == /\ tid \in 1..Len(Traces) /\ l = 1
          /\ InitWith([ns |-> Traces[tid].cfg.ns, connWin0 |-> Traces[tid].cfg.connWin0,
                       initWin0 |-> Traces[tid].cfg.initWin0, maxFrame0 |-> Traces[tid].cfg.maxFrame0])
+         /\ paused = [s \in 1..Traces[tid].cfg.ns |-> FALSE]
 
-Step(A) == /\ l <= Len(T.ev) /\ A /\ Inv' /\ l' = l + 1 /\ UNCHANGED tid
+Step(A) == /\ l <= Len(T.ev) /\ A /\ Inv' /\ l' = l + 1 /\ UNCHANGED <<tid, paused>>
+
+(* producer callbacks: no effect on the H2Flow state *)
+Prod(s, v) == /\ l <= Len(T.ev) /\ paused' = [paused EXCEPT ![s] = v] /\ l' = l + 1 /\ UNCHANGED <<vars, tid>>
+(* "streams blocked on flow control resume when the window opens", producer form: when the server is idle, a
+   producer that is still paused has no room left in its stream's window (window minus what is already queued) *)
+ProducersResumed == \A s \in Streams : (paused[s] /\ Opened(s) /\ ~ended[s]) => Win(s) - Queue(s) <= 0
 
 OkS(s) == s \in Streams
 
@@ -25,10 +33,13 @@ TNext == \/ (E.e = "open" /\ Step(Open) /\ last'.s = E.s)
          \/ (E.e = "finish" /\ OkS(E.s) /\ Step(AppFinish(E.s)))
          \/ (E.e = "data" /\ OkS(E.s) /\ Step(SendData(E.s, E.n)) /\ last'.off = E.off)
          \/ (E.e = "end" /\ OkS(E.s) /\ Step(SendEnd(E.s)))
-         \/ (E.e = "quiesce" /\ Step(Quiesce))
+         \/ (E.e = "quiesce" /\ Step(Quiesce) /\ ProducersResumed)
+         \/ (E.e = "pause" /\ OkS(E.s) /\ Prod(E.s, TRUE))
+         \/ (E.e = "resume" /\ OkS(E.s) /\ Prod(E.s, FALSE))
+         \/ (E.e = "unprod" /\ OkS(E.s) /\ Prod(E.s, FALSE))
          \/ (E.e = "alldone" /\ Step(AllDone))
 
-TSpec == TInit /\ [][l <= Len(T.ev) /\ TNext]_<<vars, tid, l>>
+TSpec == TInit /\ [][l <= Len(T.ev) /\ TNext]_<<vars, tid, l, paused>>
 
 Progress == TLCSet(tid, IF TLCGet(tid) > l THEN TLCGet(tid) ELSE l)
 Rejected == {<<t, TLCGet(t)>> : t \in {u \in 1..Len(Traces) : TLCGet(u) # Len(Traces[u].ev) + 1}}
